@@ -34,8 +34,27 @@ pub fn exec(case: &Value) -> Value {
         }
     }));
     match r {
-        Ok(()) => json!("nopanic"),
-        Err(_) => json!("panic"),
+        Ok(()) => {}
+        Err(_) => return json!("panic"),
+    }
+    // `Rule::deserialize_reader` (the other public way to read rule documents) must return as well. It runs on its
+    // own thread under a watchdog: a call that does not come back is reported as its own outcome, and this
+    // process then ends (the runaway thread cannot be stopped); `check` re-runs the remaining cases.
+    let (tx, rx) = std::sync::mpsc::channel();
+    let text = rules.clone();
+    std::thread::spawn(move || {
+        let n = catch_unwind(AssertUnwindSafe(|| gene::Rule::deserialize_reader(std::io::Cursor::new(text.into_bytes())).len()));
+        let _ = tx.send(n.is_ok());
+    });
+    match rx.recv_timeout(std::time::Duration::from_millis(1500)) {
+        Ok(true) => json!("nopanic"),
+        Ok(false) => json!("panic"),
+        Err(_) => {
+            use std::io::Write;
+            println!("{}", json!({"cid": case["cid"], "impl": "hang: Rule::deserialize_reader did not return within 1.5 s"}));
+            let _ = std::io::stdout().flush();
+            std::process::exit(3);
+        }
     }
 }
 
@@ -202,6 +221,10 @@ pub fn gen(tier: &str, seed: u64, out: &mut dyn FnMut(Value)) {
         }
         out(json!({"op": "parse_cond", "s": format!("{a} of them"), "tag": "boundary integer: count", "nt": true}));
         out(json!({"op": "parse_cond", "s": format!("{a} of $a"), "tag": "boundary integer: count", "nt": true}));
+    }
+    // YAML that stops in the middle of a construct: every reader entry point must come back with an error
+    for t in ["name: [\n", "name: 'x\n", "name: \"x\n", "name: {a: b\n", "---\nname: r\n---\nname: [\n", "? $a\n", "name: r\nmatches: {\n", "- [\n", "\t\n", "%YAML 9.9\n---\n", "name: &a [*a\n", "name: !!binary =\n"] {
+        out(json!({"op": "load_text", "rules": t, "tag": "truncated YAML", "nt": true}));
     }
     // template documents
     let tdocs = [
